@@ -100,6 +100,20 @@ func modelPoint(o *observation) (chunks [][]byte, sch string, runner bool, cut, 
 			return chunks, sched(2, 0), false, 0, 0, true
 		case cs.Point == "submit.stdin-created":
 			return chunks, sched(3, 0), false, 0, 0, true
+		case cs.Pause:
+			// the runner was held while the daemon was away: it has done what the files show —
+			// nothing, or its first rewrite, or also the command's first write, or a tick
+			g := 1
+			switch {
+			case o.HeldState == 1:
+				g = 4
+			case o.LocalOut >= first:
+				g = 3
+			}
+			if cs.Point == "submit.started" {
+				return chunks, sched(9, 0), false, 0, g, true
+			}
+			return chunks, sched(8, 0), false, cutOf(cs.Point), g, true
 		case cs.Point == "submit.started":
 			return chunks, sched(9, 0), false, 0, gapFor(), true
 		case strings.HasPrefix(cs.Point, "update.") && cs.Hit >= 1 && cs.Hit <= 5:
